@@ -10,6 +10,11 @@
 //!   * a member may only disappear un-acknowledged (eviction) when the number of retained messages
 //!     exceeded the server's ceiling (two times the publish request limit = four per subscription)
 //!     since it was last seen
+//!   * a publish request the server REJECTS (publish request queue full -> service fault
+//!     BadTooManyPublishRequests) reports no acknowledgement result at all, so none of the numbers it
+//!     names counts as acknowledged: every one of them stays a member (Republish identical) and a later
+//!     acknowledgement in an admitted request must answer Good. The FILL op queues requests up to the
+//!     server's limit so that acknowledgement requests of every kind also meet a full queue.
 //! Publish requests are kept available at every interval so that notifications flow; the histories do
 //! not enter the late state, so the verdicts do not depend on C21/C22 behaviour.
 use crate::common::*;
@@ -25,6 +30,7 @@ const ACK: i64 = 3; // [ACK, kind, pick]  publish request with acknowledgements
 const REPUB: i64 = 4; // [REPUB, kind, pick] republish probe of an acked / unknown number
 const NEWSUB: i64 = 5; // [NEWSUB]
 const DELSUB: i64 = 6; // [DELSUB, slot]
+const FILL: i64 = 7; // [FILL]             publish requests without acknowledgements until the server's limit is reached
 
 #[derive(Clone, Copy, PartialEq, Debug)]
 enum Expect {
@@ -46,6 +52,10 @@ struct Obs {
     acks_good: u64,
     acks_unknown: u64,
     acks_nosub: u64,
+    ack_requests_rejected: u64,
+    acks_in_rejected_requests: u64,
+    acks_good_after_rejection: u64,
+    fill_requests: u64,
     evictions: u64,
     retained_peak: u64,
     messages: u64,
@@ -62,6 +72,9 @@ struct Run {
     pending: BTreeMap<(u32, u32), u32>,
     /// acknowledged with Good
     acked: BTreeSet<(u32, u32)>,
+    /// members named by an acknowledgement in a request that was answered with a service fault (no result
+    /// reported): still members; only used to describe the history shape in signatures
+    in_rejected: BTreeSet<(u32, u32)>,
     /// expectations per request id
     expect: BTreeMap<u32, Vec<((u32, u32), Expect)>>,
     over_ceiling: bool,
@@ -106,12 +119,21 @@ impl Run {
                     match want {
                         Expect::Good => {
                             self.pending.remove(key);
+                            let after_rejection = self.in_rejected.remove(key);
                             if got.is_good() {
                                 obs.acks_good += 1;
+                                if after_rejection {
+                                    obs.acks_good_after_rejection += 1;
+                                }
                                 // the subscription may have been deleted since the request was sent
                                 if self.subs.iter().any(|s| s.0 == key.0 && s.1) {
                                     self.acked.insert(*key);
                                 }
+                            } else if after_rejection {
+                                self.add(
+                                    &format!("ack-of-retained-message|named-before-in-rejected-publish-request|answered-{}", sc(got)),
+                                    format!("subscription {} sequence number {} was named before only in a publish request answered with a service fault (no result Good reported), had just been republished successfully, its acknowledgement was answered {}", key.0, key.1, sc(got)),
+                                );
                             } else {
                                 self.add(
                                     &format!("ack-of-retained-message|answered-{}", sc(got)),
@@ -166,6 +188,7 @@ impl Run {
         self.shadow.retain(|k, _| k.0 != sub);
         self.pending.retain(|k, _| k.0 != sub);
         self.acked.retain(|k| k.0 != sub);
+        self.in_rejected.retain(|k| k.0 != sub);
     }
 
     /// Republish every member and every acknowledged number; reconcile evictions
@@ -190,6 +213,13 @@ impl Run {
                     } else if st == StatusCode::BadMessageNotAvailable && allowed {
                         obs.evictions += 1;
                         gone.push(k);
+                    } else if self.in_rejected.contains(&k) {
+                        let d = format!(
+                            "subscription {} sequence number {} was sent, its only acknowledgement travelled in a publish request the server rejected with a service fault (no result Good was ever reported), retained count never exceeded the ceiling {} since it was last available, but Republish answers {} (after {})",
+                            k.0, k.1, self.ceiling(), sc(st), after
+                        );
+                        self.add(&format!("republish|message-acknowledged-only-in-rejected-publish-request-unavailable|{}", sc(st)), d);
+                        gone.push(k);
                     } else {
                         let d = format!(
                             "subscription {} sequence number {} was sent, never acknowledged, retained count never exceeded the ceiling {} since it was last available, but Republish answers {} (after {})",
@@ -203,6 +233,7 @@ impl Run {
         }
         for k in gone {
             self.shadow.remove(&k);
+            self.in_rejected.remove(&k);
         }
         let acked: Vec<(u32, u32)> = self.acked.iter().cloned().collect();
         for k in acked {
@@ -294,10 +325,6 @@ impl Run {
                 if live.is_empty() {
                     return;
                 }
-                let (q, _, _, subs) = self.e.lens();
-                if q >= 2 * subs {
-                    return; // the service would refuse the request before looking at the acknowledgements
-                }
                 let kind = a(1).rem_euclid(7);
                 let pick = a(2).unsigned_abs() as usize;
                 let data_members: Vec<(u32, u32)> = self.shadow.iter().filter(|(_, m)| !m.keepalive).map(|(k, _)| *k).collect();
@@ -362,12 +389,14 @@ impl Run {
                     if *w == Expect::Good {
                         if let Err(st) = self.e.republish(k.0, k.1) {
                             if !(self.over_ceiling && st == StatusCode::BadMessageNotAvailable) {
+                                let shape = if self.in_rejected.contains(k) { "message-acknowledged-only-in-rejected-publish-request-unavailable" } else { "retained-message-unavailable" };
                                 self.add(
-                                    &format!("republish|retained-message-unavailable|{}", sc(st)),
+                                    &format!("republish|{}|{}", shape, sc(st)),
                                     format!("subscription {} sequence number {} unavailable before its acknowledgement", k.0, k.1),
                                 );
                             }
                             self.shadow.remove(k);
+                            self.in_rejected.remove(k);
                             return;
                         }
                     }
@@ -376,9 +405,24 @@ impl Run {
                     .iter()
                     .map(|(k, _)| SubscriptionAcknowledgement { subscription_id: k.0, sequence_number: k.1 })
                     .collect();
+                let (q_before, _, _, subs_before) = self.e.lens();
                 let (id, fault) = self.e.publish(self.t, Some(req_acks));
                 if let Some(f) = fault {
-                    self.add("harness|publish-with-acks-rejected", sc(f));
+                    // the service answered with a fault: no acknowledgement result was reported, so nothing
+                    // counts as acknowledged. Whatever the server sent while trying to make room is taken.
+                    if f == StatusCode::BadTooManyPublishRequests && q_before >= 2 * subs_before {
+                        obs.ack_requests_rejected += 1;
+                        for (k, w) in &acks {
+                            obs.acks_in_rejected_requests += 1;
+                            if *w == Expect::Good {
+                                self.in_rejected.insert(*k);
+                            }
+                        }
+                    } else {
+                        self.add("harness|publish-with-acks-rejected", format!("{} with {} of {} requests queued", sc(f), q_before, 2 * subs_before));
+                    }
+                    let rs = self.e.take();
+                    self.responses(rs, obs);
                     return;
                 }
                 for (k, w) in &acks {
@@ -390,6 +434,21 @@ impl Run {
                 self.expect.insert(id, acks);
                 let rs = self.e.take();
                 self.responses(rs, obs);
+            }
+            FILL => {
+                for _ in 0..8 {
+                    let (q, _, _, subs) = self.e.lens();
+                    if subs == 0 || q >= 2 * subs {
+                        break;
+                    }
+                    obs.fill_requests += 1;
+                    let (_id, f) = self.e.publish(self.t, None);
+                    let rs = self.e.take();
+                    self.responses(rs, obs);
+                    if f.is_some() {
+                        break;
+                    }
+                }
             }
             REPUB => {
                 let live = self.live();
@@ -422,6 +481,7 @@ fn run_ops(ops: &[Op], obs: &mut Obs) -> Vec<(String, String)> {
         shadow: BTreeMap::new(),
         pending: BTreeMap::new(),
         acked: BTreeSet::new(),
+        in_rejected: BTreeSet::new(),
         expect: BTreeMap::new(),
         over_ceiling: false,
         findings: Vec::new(),
@@ -449,6 +509,7 @@ fn op_name(o: &Op) -> String {
         REPUB => format!("republish-probe({})", a(1).rem_euclid(3)),
         NEWSUB => "create-subscription".into(),
         DELSUB => format!("delete-subscription({})", a(1)),
+        FILL => "fill-publish-request-queue".into(),
         _ => "?".into(),
     }
 }
@@ -471,6 +532,10 @@ fn gen_ops(rng: &mut Rng, len: usize, ack_rate: u64) -> Vec<Op> {
             25..=34 => ops.push(vec![TICK]),
             35..=74 => {
                 if rng.below(100) < ack_rate {
+                    // one acknowledgement request in six meets a full publish request queue
+                    if rng.below(6) == 0 {
+                        ops.push(vec![FILL]);
+                    }
                     ops.push(vec![ACK, rng.below(7) as i64, rng.below(1000) as i64]);
                 } else {
                     ops.push(vec![WRITE, 1 + rng.below(7) as i64]);
@@ -560,8 +625,9 @@ fn class_of(ops: &[Op], ack_rate: u64) -> String {
     let cnt = |c: i64| ops.iter().filter(|o| o.first() == Some(&c)).count();
     let kinds: BTreeSet<i64> = ops.iter().filter(|o| o[0] == ACK).map(|o| o[1].rem_euclid(7)).collect();
     format!(
-        "ackrate{} newsub{} delsub{} ackkinds{} repub{} len{}",
+        "ackrate{} fill{} newsub{} delsub{} ackkinds{} repub{} len{}",
         ack_rate,
+        cnt(FILL).min(3),
         cnt(NEWSUB).min(3),
         cnt(DELSUB).min(3),
         kinds.iter().map(|k| k.to_string()).collect::<Vec<_>>().join(""),
@@ -592,6 +658,20 @@ pub fn run(args: &Args, rep: &mut Report) {
             ops.push(vec![TICK]);
         }
         exec(&ops, "scripted every-ack-kind", false, &mut shrunk, rep, &mut obs);
+        // scripted: every acknowledgement kind against a full publish request queue (request rejected, nothing
+        // acknowledged), then the same acknowledgement again in a request that is admitted
+        let mut ops: Vec<Op> = vec![vec![WRITE, 1], vec![TICK], vec![WRITE, 1], vec![TICK]];
+        for kind in 0..7 {
+            ops.push(vec![FILL]);
+            ops.push(vec![ACK, kind, 0]);
+            ops.push(vec![ACK, kind, 0]);
+            ops.push(vec![WRITE, 1]);
+            ops.push(vec![TICK]);
+            ops.push(vec![ACK, kind, 0]);
+            ops.push(vec![WRITE, 1]);
+            ops.push(vec![TICK]);
+        }
+        exec(&ops, "scripted every-ack-kind-rejected-then-admitted", false, &mut shrunk, rep, &mut obs);
         // scripted: fill past the ceiling without acknowledging
         let mut ops: Vec<Op> = Vec::new();
         for _ in 0..8 {
@@ -617,6 +697,10 @@ pub fn run(args: &Args, rep: &mut Report) {
     rep.count("acks_answered_good", obs.acks_good);
     rep.count("acks_answered_sequence_number_unknown", obs.acks_unknown);
     rep.count("acks_for_unknown_subscription", obs.acks_nosub);
+    rep.count("publish_requests_with_acks_rejected_queue_full", obs.ack_requests_rejected);
+    rep.count("acks_in_rejected_requests", obs.acks_in_rejected_requests);
+    rep.count("acks_answered_good_after_earlier_rejection", obs.acks_good_after_rejection);
+    rep.count("fill_publish_requests", obs.fill_requests);
     rep.count("evictions_at_ceiling_tolerated", obs.evictions);
     rep.count("shrink_reexecutions", obs.shrink_runs);
 }
